@@ -27,8 +27,8 @@ ASSUMPTIONS = [
 ]
 
 OPS = ["same", "other", "touch", "adv0.4", "adv1", "adv2.5", "plain", "etag", "lm", "both", "list-first", "list-mid", "list-last", "weak",
-       "weaklist", "star", "etag0", "lm0", "both0", "other-keepm", "list-empty", "list-comma", "etag-range", "lm-range", "list-long"]
-MODS = ("same", "other", "touch", "other-keepm")
+       "weaklist", "star", "etag0", "lm0", "both0", "other-keepm", "list-empty", "list-comma", "etag-range", "lm-range", "list-long", "truncate0"]
+MODS = ("same", "other", "touch", "other-keepm", "truncate0")
 
 
 class VFS:
@@ -106,6 +106,9 @@ def run_history(ctx, vfs, iface, app, url_path, file_path, seq, start_frac, zone
             write(b"C" * (len(content[0]) + 1 + ver[0] % 3))
             vfs.state[file_path] = {"m": m_old, "c": clock}
             modified_since_resp = True
+        elif op == "truncate0":
+            write(b"")  # rewritten as an empty file: still a file, served with 200 and new validators
+            modified_since_resp = True
         elif op == "touch":
             vfs.state[file_path] = {"m": clock, "c": clock}
             ver[0] += 1
@@ -136,6 +139,8 @@ def run_history(ctx, vfs, iface, app, url_path, file_path, seq, start_frac, zone
                     "weak": [("If-None-Match", "W/" + j["etag"])],
                     "weaklist": [("If-None-Match", f'"zzz", W/{j["etag"]}')],
                 }[base]
+            if base.endswith("-range") and len(content[0]) == 0:
+                hd = [h for h in hd if h[0] != "Range"]  # no byte of an empty file can be asked for (416): the plain conditional request instead
             # conditional requests are sent as GET or HEAD (a HEAD answer has no body; status and validators are the same)
             method = "HEAD" if (op != "plain" and (step + len(seq)) % 3 == 0) else "GET"
             st, h, body, exc = request(iface, app, url_path, hd, method)
